@@ -27,6 +27,7 @@
 #include "nlopt-util.h"
 #include "nlopt.h"
 #include "cdirect.h"
+#include "nlopt-verif.h"
 #include "redblack.h"
 
 #define MIN(a,b) ((a) < (b) ? (a) : (b))
@@ -559,6 +560,7 @@ double cdirect_uf(unsigned n, const double *xu, double *grad, void *d_)
      unsigned i;
      for (i = 0; i < n; ++i)
 	  d->x[i] = d->lb[i] + xu[i] * (d->ub[i] - d->lb[i]);
+     NLOPT_VERIF_SITE(107, (int) n, d->x);
      /* rounding can leave the box by a few ulps (e.g. xu = 1) */
      for (i = 0; i < n; ++i) {
 	  if (d->x[i] < d->lb[i]) d->x[i] = d->lb[i];
